@@ -5,6 +5,8 @@ LEVEL = "proof"
 
 
 def run(ctx):
+    # leaf translator: theorems re-checked against the Gallina translation of the current Go source
+    generic.leaf_obligations(ctx, ['Word'])
     npat = 900 if ctx.quick() else 6000
     generic.standard(ctx, ["Props_C01", "Props_Pike"], "rx", "api-vs-regexp", lists=(), model=True, ledger="known/C01.ledger",
                      extra_args=["-prop", "C01", "-patterns", npat, "-haystacks", 24])
